@@ -45,14 +45,16 @@ type pkgInfo struct {
 }
 
 type point struct {
-	ID     int      `json:"id"`
-	Pkg    string   `json:"pkg"`
-	File   string   `json:"file"`
-	Line   int      `json:"line"`
-	Vars   string   `json:"vars"`
-	Reads  []string `json:"reads,omitempty"`   // package-level variables the statement reads (directly or through a local alias)
-	Writes []string `json:"writes,omitempty"`  // package-level variables the statement writes
-	Init   bool     `json:"in_init,omitempty"` // inside a package init function (runs before any library call)
+	ID           int      `json:"id"`
+	Pkg          string   `json:"pkg"`
+	File         string   `json:"file"`
+	Line         int      `json:"line"`
+	Vars         string   `json:"vars"`
+	Reads        []string `json:"reads,omitempty"`         // package-level variables the statement reads (directly or through a local alias)
+	Writes       []string `json:"writes,omitempty"`        // package-level variables the statement writes
+	AtomicReads  []string `json:"atomic_reads,omitempty"`  // … reads through sync/atomic functions (atomic.LoadX(&v))
+	AtomicWrites []string `json:"atomic_writes,omitempty"` // … read-modify-writes through sync/atomic functions (Add, Store, Swap, CompareAndSwap, And, Or)
+	Init         bool     `json:"in_init,omitempty"`       // inside a package init function (runs before any library call)
 }
 
 func main() {
@@ -906,9 +908,16 @@ var readOnlyMethods = map[string]bool{"Len": true, "Cap": true, "String": true, 
 // variable, one of its elements or fields, also through a local alias; ++/--; delete; copy into it; its address
 // passed to a call; a method call on it unless the method is a known reader or the variable is a synchronisation
 // object / third-party object) and reads (every other mention).
+// accAtomicR / accAtomicW: the package-level variables the last call of access found accessed through sync/atomic
+// functions only (they are synchronisation, not plain data accesses).
+var accAtomicR, accAtomicW []string
+
 func access(nodes []ast.Node, p *pkgInfo, imports map[string]*pkgInfo, tnt map[string]bool, src map[string][]string) (reads, writes []string) {
 	w := map[string]bool{}
 	r := map[string]bool{}
+	ar := map[string]bool{}
+	aw := map[string]bool{}
+	atomicArg := map[ast.Expr]bool{}
 	isData := func(ip *pkgInfo, v string) bool { return !ip.syncVar[v] }
 	// targets of a write through expression e
 	target := func(e ast.Expr) []string {
@@ -952,6 +961,20 @@ func access(nodes []ast.Node, p *pkgInfo, imports map[string]*pkgInfo, tnt map[s
 					}
 				}
 			case *ast.CallExpr:
+				if se, ok := s.Fun.(*ast.SelectorExpr); ok && len(s.Args) > 0 {
+					if id, ok := se.X.(*ast.Ident); ok && id.Obj == nil && id.Name == "atomic" {
+						if ue, ok := s.Args[0].(*ast.UnaryExpr); ok && ue.Op == token.AND {
+							if ip, v := rootVar(ue.X, p, imports); ip != nil && isData(ip, v) {
+								atomicArg[s.Args[0]] = true
+								if strings.HasPrefix(se.Sel.Name, "Load") {
+									ar[ip.name+"."+v] = true
+								} else {
+									aw[ip.name+"."+v] = true
+								}
+							}
+						}
+					}
+				}
 				if id, ok := s.Fun.(*ast.Ident); ok && id.Obj == nil && len(s.Args) > 0 && (id.Name == "delete" || id.Name == "copy" || id.Name == "clear") {
 					for _, t := range target(s.Args[0]) {
 						w[t] = true
@@ -971,6 +994,9 @@ func access(nodes []ast.Node, p *pkgInfo, imports map[string]*pkgInfo, tnt map[s
 					}
 				}
 				for _, a := range s.Args {
+					if atomicArg[a] {
+						continue
+					}
 					if ue, ok := a.(*ast.UnaryExpr); ok && ue.Op == token.AND {
 						for _, t := range target(ue.X) {
 							w[t] = true
@@ -997,6 +1023,21 @@ func access(nodes []ast.Node, p *pkgInfo, imports map[string]*pkgInfo, tnt map[s
 			}
 		}
 	}
+	accAtomicR, accAtomicW = nil, nil
+	for v := range aw {
+		if !w[v] {
+			accAtomicW = append(accAtomicW, v)
+			delete(r, v)
+		}
+	}
+	for v := range ar {
+		if !w[v] && !aw[v] {
+			accAtomicR = append(accAtomicR, v)
+			delete(r, v)
+		}
+	}
+	sort.Strings(accAtomicR)
+	sort.Strings(accAtomicW)
 	for v := range w {
 		writes = append(writes, v)
 		delete(r, v)
@@ -1100,7 +1141,7 @@ func instrList(fset *token.FileSet, list []ast.Stmt, p *pkgInfo, imports map[str
 			*next++
 			*ins++
 			rd, wr := access(ownExprs(st), p, imports, tnt, curSrc)
-			*pts = append(*pts, point{ID: id, Pkg: p.imp, File: filepath.Base(file), Line: fset.Position(st.Pos()).Line, Vars: strings.Join(ms, ","), Reads: rd, Writes: wr})
+			*pts = append(*pts, point{ID: id, Pkg: p.imp, File: filepath.Base(file), Line: fset.Position(st.Pos()).Line, Vars: strings.Join(ms, ","), Reads: rd, Writes: wr, AtomicReads: accAtomicR, AtomicWrites: accAtomicW})
 			out = append(out, hookCall(id))
 		}
 		instrNested(fset, st, p, imports, tnt, next, pts, file, ins, len(ms) > 0)
@@ -1125,7 +1166,7 @@ func instrNested(fset *token.FileSet, st ast.Stmt, p *pkgInfo, imports map[strin
 			*next++
 			*ins++
 			rd, wr := access(ownExprs(st), p, imports, tnt, curSrc)
-			*pts = append(*pts, point{ID: id, Pkg: p.imp, File: filepath.Base(file), Line: fset.Position(b.Pos()).Line, Vars: "loop-header", Reads: rd, Writes: wr})
+			*pts = append(*pts, point{ID: id, Pkg: p.imp, File: filepath.Base(file), Line: fset.Position(b.Pos()).Line, Vars: "loop-header", Reads: rd, Writes: wr, AtomicReads: accAtomicR, AtomicWrites: accAtomicW})
 			b.List = append([]ast.Stmt{hookCall(id)}, b.List...)
 		}
 	}
